@@ -5,7 +5,11 @@
 package main
 
 import (
+	"context"
 	"fmt"
+	"github.com/basekick-labs/arc/internal/config"
+	"github.com/basekick-labs/arc/zzverif/hx"
+	"github.com/rs/zerolog"
 	"math"
 	"reflect"
 	"sort"
@@ -275,6 +279,130 @@ func judge(p point, neighbour int) string {
 	return ""
 }
 
+// ---- storage stage ------------------------------------------------------------
+// The property says "stored": a sequence of accepted requests goes parser -> BatchToColumnar ->
+// ArrowBuffer.WriteColumnarRecord (as the line-protocol handler does) into ONE buffer, is flushed once
+// (so the batches of all requests are merged), and the stored Parquet files are read back with an
+// independent reader. Every point must be exactly one stored row of its measurement with exactly its
+// tags, fields and timestamp (absent columns NULL).
+func storeJudge(reqs [][]point) string {
+	mem := hx.NewMemBackend()
+	cfg := &config.IngestConfig{MaxBufferSize: 1 << 20, MaxBufferAgeMS: 3_600_000, Compression: "snappy", FlushWorkers: 1,
+		FlushQueueSize: 4, ShardCount: 1, FlushTimeoutSeconds: 3600, WriteStatistics: true}
+	buf := ingest.NewArrowBuffer(cfg, mem, zerolog.Nop())
+	var want []hx.Row
+	for _, pts := range reqs {
+		var lines []string
+		for _, q := range pts {
+			lines = append(lines, q.line())
+			exp := expectedTS(q.TS, q.Prec)
+			if len(exp) != 1 {
+				return "harness:storage-stage-needs-unambiguous-timestamps"
+			}
+			r := hx.Row{"time": exp[0]}
+			for _, t := range q.Tags {
+				r[t.K] = t.V
+			}
+			for _, f := range q.Fields {
+				r[f.K] = f.V
+			}
+			want = append(want, r)
+		}
+		recs := parser.ParseBatchWithPrecision([]byte(strings.Join(lines, "\n")), pts[0].Prec)
+		if len(recs) != len(pts) {
+			buf.Close()
+			return "point-dropped"
+		}
+		col := ingest.BatchToColumnar(recs)
+		ms := make([]string, 0, len(col))
+		for m := range col {
+			ms = append(ms, m)
+		}
+		sort.Strings(ms)
+		for _, m := range ms {
+			if err := buf.WriteColumnarRecord(context.Background(), "db", col[m]); err != nil {
+				buf.Close()
+				return "write-rejected"
+			}
+		}
+	}
+	buf.FlushAll(context.Background())
+	buf.Close()
+	paths, files := mem.Snapshot()
+	var got []hx.Row
+	for _, p := range paths {
+		rows, _, _, err := hx.ReadParquet(files[p])
+		if err != nil {
+			return "stored-file-unreadable"
+		}
+		for _, r := range rows {
+			for c, v := range r {
+				if v == nil {
+					delete(r, c)
+				}
+			}
+			got = append(got, r)
+		}
+	}
+	if len(got) < len(want) {
+		return "stored-row-missing"
+	}
+	if len(got) > len(want) {
+		return "stored-row-extra"
+	}
+	if d := hx.DiffMultiset(hx.Multiset(want), hx.Multiset(got)); d != "" {
+		return "stored-row-differs"
+	}
+	return ""
+}
+
+// storeCases: request sequences for the storage stage. Points of one measurement "m" with distinct
+// timestamps; a point may omit a field or tag that other points carry (sparse columns -> validity
+// bitmaps), in every position of up to 3 requests of up to 2 points.
+func storeCases(quick bool) [][][]point {
+	mk := func(i int, shape int) point {
+		p := point{M: "m", TS: fmt.Sprint(int64(i+1) * 1000), Prec: "ns"}
+		// shape bits: 1 = tag t, 2 = float field f, 4 = int field g, 8 = string field s (at least one field)
+		if shape&1 != 0 {
+			p.Tags = append(p.Tags, kv{K: "t", V: fmt.Sprintf("v%d", i)})
+		}
+		if shape&2 != 0 {
+			p.Fields = append(p.Fields, kv{K: "f", V: float64(i) + 0.5, Lit: fmt.Sprintf("%d.5", i)})
+		}
+		if shape&4 != 0 {
+			p.Fields = append(p.Fields, kv{K: "g", V: int64(i + 10), Lit: fmt.Sprintf("%di", i+10)})
+		}
+		if shape&8 != 0 {
+			p.Fields = append(p.Fields, kv{K: "s", V: fmt.Sprintf("x%d", i)})
+		}
+		return p
+	}
+	shapes := []int{2, 3, 6, 7, 10, 4}
+	if !quick {
+		shapes = []int{2, 3, 4, 5, 6, 7, 8, 10, 14, 15}
+	}
+	var out [][][]point
+	// two requests of two points each: every assignment of shapes to the 4 points
+	for _, a := range shapes {
+		for _, b := range shapes {
+			for _, c := range shapes {
+				for _, d := range shapes {
+					out = append(out, [][]point{{mk(0, a), mk(1, b)}, {mk(2, c), mk(3, d)}})
+				}
+			}
+		}
+	}
+	// three requests of one point each
+	for _, a := range shapes {
+		for _, b := range shapes {
+			for _, c := range shapes {
+				out = append(out, [][]point{{mk(0, a)}, {mk(1, b)}, {mk(2, c)}})
+			}
+		}
+	}
+	return out
+}
+
 // shrink candidates: strictly simpler points
 func shrinks(p point) []point {
 	var out []point
@@ -415,35 +543,79 @@ func main() {
 	}
 	// (1) one element varied at a time, long names
 	for _, s := range nm1 {
-		p := clone(simple); p.M = s; add(p)
-		p = clone(simple); p.Tags[0].K = s; add(p)
-		p = clone(simple); p.Tags[0].V = s; add(p)
-		p = clone(simple); p.Fields[0].K = s; add(p)
+		p := clone(simple)
+		p.M = s
+		add(p)
+		p = clone(simple)
+		p.Tags[0].K = s
+		add(p)
+		p = clone(simple)
+		p.Tags[0].V = s
+		add(p)
+		p = clone(simple)
+		p.Fields[0].K = s
+		add(p)
 		// second tag / second field positions
-		p = clone(simple); p.Tags = append(p.Tags, kv{K: s, V: "w"}); add(p)
-		p = clone(simple); p.Tags = append(p.Tags, kv{K: "u", V: s}); add(p)
-		p = clone(simple); p.Fields = append(p.Fields, kv{K: s, V: int64(3), Lit: "3i"}); add(p)
-		p = clone(simple); p.Tags = nil; p.M = s; add(p)
+		p = clone(simple)
+		p.Tags = append(p.Tags, kv{K: s, V: "w"})
+		add(p)
+		p = clone(simple)
+		p.Tags = append(p.Tags, kv{K: "u", V: s})
+		add(p)
+		p = clone(simple)
+		p.Fields = append(p.Fields, kv{K: s, V: int64(3), Lit: "3i"})
+		add(p)
+		p = clone(simple)
+		p.Tags = nil
+		p.M = s
+		add(p)
 	}
 	for _, s := range sv1 {
-		p := clone(simple); p.Fields[0] = kv{K: "f", V: s}; add(p)
-		p = clone(simple); p.Fields = []kv{{K: "s", V: s}, {K: "f", V: 1.0, Lit: "1"}}; add(p)
-		p = clone(simple); p.Fields = []kv{{K: "f", V: 1.0, Lit: "1"}, {K: "s", V: s}}; p.TS = ""; add(p)
+		p := clone(simple)
+		p.Fields[0] = kv{K: "f", V: s}
+		add(p)
+		p = clone(simple)
+		p.Fields = []kv{{K: "s", V: s}, {K: "f", V: 1.0, Lit: "1"}}
+		add(p)
+		p = clone(simple)
+		p.Fields = []kv{{K: "f", V: 1.0, Lit: "1"}, {K: "s", V: s}}
+		p.TS = ""
+		add(p)
 	}
 	// (2) every pair of elements varied together, shorter names
 	for _, a := range nm2 {
 		for _, b := range nm2 {
-			p := clone(simple); p.M, p.Tags[0].K = a, b; add(p)
-			p = clone(simple); p.M, p.Tags[0].V = a, b; add(p)
-			p = clone(simple); p.M, p.Fields[0].K = a, b; add(p)
-			p = clone(simple); p.Tags[0].K, p.Tags[0].V = a, b; add(p)
-			p = clone(simple); p.Tags[0].K, p.Fields[0].K = a, b; add(p)
-			p = clone(simple); p.Tags[0].V, p.Fields[0].K = a, b; add(p)
+			p := clone(simple)
+			p.M, p.Tags[0].K = a, b
+			add(p)
+			p = clone(simple)
+			p.M, p.Tags[0].V = a, b
+			add(p)
+			p = clone(simple)
+			p.M, p.Fields[0].K = a, b
+			add(p)
+			p = clone(simple)
+			p.Tags[0].K, p.Tags[0].V = a, b
+			add(p)
+			p = clone(simple)
+			p.Tags[0].K, p.Fields[0].K = a, b
+			add(p)
+			p = clone(simple)
+			p.Tags[0].V, p.Fields[0].K = a, b
+			add(p)
 		}
 		for _, b := range sv2 {
-			p := clone(simple); p.M = a; p.Fields[0] = kv{K: "f", V: b}; add(p)
-			p = clone(simple); p.Tags[0].V = a; p.Fields[0] = kv{K: "f", V: b}; add(p)
-			p = clone(simple); p.Fields[0] = kv{K: a, V: b}; add(p)
+			p := clone(simple)
+			p.M = a
+			p.Fields[0] = kv{K: "f", V: b}
+			add(p)
+			p = clone(simple)
+			p.Tags[0].V = a
+			p.Fields[0] = kv{K: "f", V: b}
+			add(p)
+			p = clone(simple)
+			p.Fields[0] = kv{K: a, V: b}
+			add(p)
 		}
 	}
 	// (3) field literal x timestamp x precision grid
@@ -507,6 +679,88 @@ func main() {
 		}()
 	}
 	wg.Wait()
+	// (4) storage stage: every escaped-name point alone, and every sparse-column request sequence
+	var storeEvals int64
+	storeFail := map[string]any{}
+	var smu sync.Mutex
+	{
+		var cases [][][]point
+		for _, p := range pts {
+			if exp := expectedTS(p.TS, p.Prec); len(exp) == 1 && p.Prec == "ns" && p.TS == simple.TS {
+				cases = append(cases, [][]point{{p}}, [][]point{{other}, {p}})
+			}
+		}
+		cases = append(cases, storeCases(run.Quick())...)
+		var nx int64 = -1
+		var swg sync.WaitGroup
+		for w := 0; w < 16; w++ {
+			swg.Add(1)
+			go func() {
+				defer swg.Done()
+				for {
+					i := int(atomic.AddInt64(&nx, 1))
+					if i >= len(cases) {
+						return
+					}
+					if i%512 == 0 && run.TimeUp() {
+						atomic.StoreInt32(&complete, 0)
+						return
+					}
+					atomic.AddInt64(&storeEvals, 1)
+					if c := storeJudge(cases[i]); c != "" {
+						// minimise: drop requests, then points, while the same class remains
+						cur := cases[i]
+						for changed := true; changed; {
+							changed = false
+							for r := 0; r < len(cur) && !changed; r++ {
+								if len(cur) > 1 {
+									x := append(append([][]point{}, cur[:r]...), cur[r+1:]...)
+									if storeJudge(x) == c {
+										cur, changed = x, true
+										break
+									}
+								}
+								for k := 0; k < len(cur[r]) && len(cur[r]) > 1; k++ {
+									x := append([][]point{}, cur...)
+									x[r] = append(append([]point{}, cur[r][:k]...), cur[r][k+1:]...)
+									if storeJudge(x) == c {
+										cur, changed = x, true
+										break
+									}
+								}
+							}
+						}
+						var desc []string
+						for _, r := range cur {
+							var ls []string
+							for _, q := range r {
+								ls = append(ls, q.line())
+							}
+							desc = append(desc, strings.Join(ls, " \\n "))
+						}
+						sig := c + "|" + strings.Join(desc, " ; ")
+						smu.Lock()
+						if _, ok := storeFail[sig]; !ok {
+							storeFail[sig] = map[string]any{"requests": desc}
+						}
+						smu.Unlock()
+					}
+				}
+			}()
+		}
+		swg.Wait()
+	}
+	{
+		ks := make([]string, 0, len(storeFail))
+		for k := range storeFail {
+			ks = append(ks, k)
+		}
+		sort.Strings(ks)
+		for _, k := range ks {
+			run.Violate(k, "request sequence written through the real ArrowBuffer and flushed once: the stored Parquet rows are not the points that were written", storeFail[k])
+		}
+	}
+	run.Coverage["storage_stage_sequences"] = storeEvals
 	// minimise each failure greedily, then classify by (class, minimal line)
 	minimal := map[string]fail{}
 	memo := map[string]string{}
@@ -560,7 +814,7 @@ func main() {
 	}
 	run.Coverage["evaluations"] = evals
 	run.Coverage["distinct_nontrivial"] = nontriv
-	run.Coverage["rule"] = fmt.Sprintf("points rendered from structures: each of measurement/tag key/tag value/field key over every atom sequence of length<=%d of {a,ä,',',' ','=','\"','\\\\'} (one element at a time, in first and second positions), every pair of elements over length<=%d, string field values likewise, and the full grid of %d field literals x %d timestamps x %d precisions; each point parsed alone, before and after a fixed neighbour line; non-trivial = the point contains at least one escapable character; distinct by rendered line+precision", n1, n2, len(literals), len(tsValues), len(precs))
+	run.Coverage["rule"] = fmt.Sprintf("points rendered from structures: each of measurement/tag key/tag value/field key over every atom sequence of length<=%d of {a,ä,',',' ','=','\"','\\\\'} (one element at a time, in first and second positions), every pair of elements over length<=%d, string field values likewise, and the full grid of %d field literals x %d timestamps x %d precisions; each point parsed alone, before and after a fixed neighbour line; storage stage: every ns-precision point alone and after a request for another measurement, and every sequence of 2 requests x 2 points / 3 requests x 1 point of one measurement over point shapes that carry or omit a tag and float/int/string fields, written through the real ArrowBuffer, flushed once (batches merged) and read back from Parquet; non-trivial = the point contains at least one escapable character; distinct by rendered line+precision", n1, n2, len(literals), len(tsValues), len(precs))
 	run.Coverage["samples"] = samples.List()
 	run.Coverage["failing_inputs_before_minimisation"] = len(fails)
 	run.Coverage["exhaustive"] = complete == 1
